@@ -203,6 +203,13 @@ def classify(site, key, v, obs: str, got=None, have_got=False) -> str:
             # (c) raw CR written to a file and read back through universal-newline translation
             if via_file and "\r" in nv and got == _universal_newlines(nv):
                 return "C04:cr-through-file"
+            # (c+b) both at once: the CR has become LF through the file, and on the next emission that LF's escape \n
+            # composes with a following combining mark (exact prediction of the two known classes applied in turn)
+            if via_file and "\r" in nv:
+                x = _universal_newlines(nv)
+                nfc2 = unicodedata.normalize("NFC", _escape(x))
+                if nfc2 != _escape(x) and got in [un(nfc2) for un in (_unescape_single, _unescape_chain)]:
+                    return "C04:cr-through-file"
         # (d) a reserved word at the start of a bare token or right after an operator is re-lexed as a literal
         if _BARE_TOKEN.match(nv) and _RESERVED_RELEXED.search(nv):
             return "C04:reserved-word-in-bare-token"
